@@ -30,6 +30,9 @@ BadSteps ==
   IF Dim(abs) = 0 \/ IsEmptyV(abs) THEN {}
   ELSE
        {[kind |-> "index", args |-> <<i>>] : i \in OutIdx}
+  \* an index 2^32 above / below a VALID index i (TLC's integers are 32-bit: the replayer adds the 2^32): a range check done
+  \* in 32-bit arithmetic would let it through
+  \cup {[kind |-> k, args |-> <<i>>] : k \in {"index_far_up", "index_far_down"}, i \in Lo..(Hi - 1)}
   \cup (IF Dim(abs) >= 2
         THEN {[kind |-> "deep_index", args |-> <<j>>] : j \in {abs.first[Dim(abs)] - 1, abs.first[Dim(abs)] + abs.shape[Dim(abs)]}}
              \cup {[kind |-> "call_first", args |-> <<i>>] : i \in {Lo - 1, Hi}}
@@ -48,7 +51,8 @@ BadSteps ==
 
 (* each bad step really is outside the documented domain *)
 OutOfDomain(s) ==
-  CASE s.kind \in {"index", "call_first"} -> ~InExt(abs, 1, s.args[1])
+  CASE s.kind \in {"index_far_up", "index_far_down"} -> InExt(abs, 1, s.args[1])     \* the offset is valid, the index is 2^32 away
+    [] s.kind \in {"index", "call_first"} -> ~InExt(abs, 1, s.args[1])
     [] s.kind \in {"deep_index", "call_last"} -> ~InExt(abs, Dim(abs), s.args[1])
     [] s.kind = "sliced" -> ~SlicedPre(abs, s.args[1], s.args[2])
     [] OTHER -> TRUE
